@@ -7,6 +7,7 @@ import threading
 from . import c14 as C14
 from . import c18gc as GCX
 from . import c18lib as L
+from . import c18paths
 from . import c18raw as RAW
 from . import subserver as SUB
 
@@ -49,7 +50,11 @@ RULE = ("(a) tables: proofs by `decide` over the tables/guards translated from t
         "referenced by 1-4 frame locals, 0-7 instances dropped in reference cycles of 8 shapes, gc.collect(), then the "
         "class is used; #REJ - every raw CTrait setter x every malformed argument shape (about 150) x 9 valid prior "
         "configurations: if the call raises, the API-visible state and the behaviour of the trait on fresh objects "
-        "(default_value_for / read / assign / delete, instance trait and class attribute) must be what they were")
+        "(default_value_for / read / assign / delete, instance trait and class attribute) must be what they were; #DPX - "
+        "a class-prefix delegate (Delegate / modify / PrototypedFrom / listened) whose owner class gets a non-string "
+        "__prefix__ of 7 kinds, then read / write on the old and on a fresh object: TypeError, never a crash. Quick "
+        "tier: a sample of (f) (every setter x shape once, every #GREF kind once, the critical #GLIVE points); the "
+        "cross products run in the thorough tier, also under ASan")
 TRUSTED = [
     "translator ctables.py (regex reader of ctraits.c, fails closed): tables, assignment sites, guards, constants, "
     "stealing calls with the releases that can follow them (else arms of the same `if` excluded, loops and gotos "
@@ -148,6 +153,11 @@ def corpus():
         # round 5: what tp_traverse reports, a live class after a collection, a refused setter call followed by use
         "#GREF hastraits||plain", "#GREF hastraits||all", "#GLIVE self-ref 0 1", "#GLIVE self-ref 1 2",
         "#REJ set_default_value|cargs-none|int", "#REJ set_default_value|cargs-2tuple|const",
+        # F100-del-flag / F100-del-dict / F100-validate-k1 (repaired 6ecb263, 4720b0b), delegate prefix (e4a9aa5)
+        "#REJ is_mapped|del|const", "#REJ modify_delegate|del|delegate", "#REJ setattr_original_value|del|int",
+        "#REJ post_setattr_original_value|del|validated", "#REJ __dict__|del|const", "#REJ set_validate|k1-short|const",
+        "#DPX delegate|int|read", "#DPX delegate|int|write", "#DPX delegate-modify|none|write",
+        "#DPX prototyped|bytes|read",
         "U|n n s c9|1 2 3 4|s", "U|s c9|1 2|v", "#V Tuple(Any,Any,Float) | t_conv3 | set",
         "#V Either(Str,Tuple(Any,Float)) | t_conv2 | set",
         "#V Either(Range,Float) | f5.5 | set", "#V Either(Range,Str) | f5.5 | set",
@@ -198,11 +208,15 @@ def generate(rng, tier):
         yield c
     for c in RAW.gen_a(rng, {"quick": 500, "thorough": 12000}.get(tier, 3000)):
         yield c
-    for c in GCX.gen_gref(rng, {"quick": 40, "thorough": 600}.get(tier, 300)):
+    # quick: a sample (every setter x shape once, every #GREF kind once, the critical #GLIVE points); the full cross
+    # products in the other tiers
+    for c in GCX.gen_gref(rng, {"quick": 10, "thorough": 600}.get(tier, 300)):
         yield c
     for c in GCX.gen_glive(rng, tier):
         yield c
     for c in GCX.gen_rej(rng, tier):
+        yield c
+    for c in GCX.gen_dpx(rng, tier):
         yield c
     for _ in range(nT):
         yield C14.random_T(rng)
@@ -367,6 +381,10 @@ def run_gcx(case, srv=None):
         ans = srv.request({"k": "GREF", "spec": GCX.gref_spec(case)})
         out, hits = GCX.judge_gref(case, ans, SUB.crash_summary)
         return out, hits, ["GREF:" + GCX.gref_spec(case)["kind"]]
+    if case.startswith("#DPX "):
+        ans = srv.request({"k": "DPX", "spec": GCX.dpx_spec(case)})
+        out, hits = GCX.judge_dpx(case, ans, SUB.crash_summary)
+        return out, hits, ["DPX:" + GCX.dpx_spec(case)["kind"]]
     ans = srv.request({"k": "GLIVE", "spec": GCX.glive_spec(case)})
     out, hits = GCX.judge_glive(case, ans, SUB.crash_summary)
     return out, hits, ["GLIVE:" + GCX.glive_spec(case)["variant"]]
@@ -375,7 +393,7 @@ def run_gcx(case, srv=None):
 def run_impl(case):
     if case.startswith("#GC "):
         return run_gc(case)
-    if case.startswith(("#GREF ", "#GLIVE ", "#REJ ")):
+    if case.startswith(("#GREF ", "#GLIVE ", "#REJ ", "#DPX ")):
         return run_gcx(case)
     if case.startswith("W|"):
         return run_w(case)
@@ -444,7 +462,17 @@ _EXTRA = {}
 
 
 def extra_checks(ctx):
-    """Thorough tier: the generated programs again, under the ASan+UBSan build."""
+    """Both tiers: the control-flow paths `crefpaths` reads, judged in Python (`refpath-imbalance:<fn>:<value>`: the
+    input of a broken `C18_paths_balanced`).  Thorough tier: the generated programs again, under the ASan+UBSan build."""
+    path_hits = c18paths.refpath_hits(ctx["scratch"])
+    _EXTRA.update({"refpath_oracle": "%d unbalanced (function, value) pairs" % len(path_hits)})
+    if ctx["tier"] != "thorough":
+        _EXTRA.update({"sanitizer_tier": "not run in the quick tier (programs ran on the normal build in a subprocess)"})
+        return path_hits
+    return path_hits + _sanitizer_checks(ctx)
+
+
+def _sanitizer_checks(ctx):
     if ctx["tier"] != "thorough":
         _EXTRA.update({"sanitizer_tier": "not run in the quick tier (programs ran on the normal build in a subprocess)"})
         return []
@@ -477,10 +505,11 @@ def extra_checks(ctx):
     gc_specs = [{"scenario": sc, "mode": "plain"} for sc in SUB.GC_SCENARIOS]
     h_cases = gen_h(random.Random(ctx["seed"] * 31 + 7), 400)
     wa_cases = RAW.gen_w(random.Random(ctx["seed"] * 17 + 3), 200) + RAW.gen_a(random.Random(ctx["seed"] * 13 + 1), 1500)
-    # refused raw-setter calls followed by use, and the collector scenarios, under the sanitizer (known crashes of the
-    # normal build left out: they would only be found again)
-    wa_cases += [c for c in GCX.gen_rej(random.Random(ctx["seed"] * 11 + 9), "thorough") if "|del|" not in c]
+    # refused raw-setter calls followed by use, the collector scenarios and non-string class prefixes, under the
+    # sanitizer
+    wa_cases += GCX.gen_rej(random.Random(ctx["seed"] * 11 + 9), "thorough")
     wa_cases += GCX.gen_gref(random.Random(ctx["seed"] * 7 + 2), 100) + GCX.gen_glive(None, "quick")
+    wa_cases += GCX.gen_dpx(None, "thorough")
     nthreads = 12
     hits = []
     lock = threading.Lock()
